@@ -14,6 +14,43 @@ LIST_DENY = re.compile(r'(::take$|::clear$|::drain$|::pop$|::truncate$|mem::take
                        r'::swap_remove$|::split_off$|::dedup\w*$|::set_len$)')
 
 
+def _fn_item(c):
+    """a function item passed where a closure is expected (`locked(core::mem::take)`): its path, else None"""
+    c = strip(c)
+    if c[0] == 'c' and isinstance(c[1], tuple) and c[1] and c[1][0] == 'fn':
+        return str(c[1][1])
+    return None
+
+
+def final_read(chk, F, cfg, reader):
+    """True iff `reader` (a function that empties the recorded-error list while reading it) can only run as the last access ever:
+    its single call site is in teardown, on paths where the live-clone test has already established that this instance holds the
+    only handle to the shared state (teardown has `&mut Unimock`, so no other handle can appear afterwards; `torn_down` keeps
+    teardown from running twice)."""
+    sites = F.callers_of(reader.defp)
+    if len(sites) != 1 or sites[0][0].defp != 'teardown::teardown':
+        return False
+    td = sites[0][0]
+    atom = L.teardown_atomizer(F, 'nostd' in cfg)
+    seen = False
+    for p in symex.Interp(F, inline=L.inline_small_bool(F)).run(td):
+        for e in p.calls():
+            if e.data[1] != reader.defp and not e.data[1].endswith('::' + reader.defp.rsplit('::', 1)[-1]):
+                continue
+            seen = True
+            strong = {1, 2, 3, 4}
+            orig = None
+            for d in p.decisions[:e.ndec]:
+                a = atom(d, p)
+                if a and a is not L.IGNORE and a[0] == 'strong':
+                    strong &= a[1]
+                if a and a is not L.IGNORE and a[0] == 'original':
+                    orig = a[1]
+            if strong != {1} or orig != {1}:
+                return False
+    return seen
+
+
 def mentions_reasons(v):
     return mentions(v, lambda x: (x[0] == 'field' and x[2] == 'panic_reasons') or
                     (x[0] == 'ref' and any(e == ('f', 'panic_reasons') for e in x[1][1])))
@@ -68,6 +105,28 @@ def records_before_panic(chk, F, rule, cfg, nostd):
 
 
 
+def panic_message_is_the_error(chk, F, rule, cfg):
+    """the text induce_panic panics with is the rendering of the very error it was handed (the failing call's own error): not of
+    anything read back from the shared list, which also holds the errors of earlier calls and of other clones"""
+    ip = F.method('Unimock', 'induce_panic')
+    n = 0
+    for p in symex.Interp(F, inline=INLINE_LOCK).run(ip):
+        ps = list(p.calls(r'^core::panicking::(panic_fmt|panic_display|panic_explicit|panic_str)$|^std::rt::begin_panic'))
+        if not ps:
+            continue
+        n += 1
+        arg = ps[-1].data[2][0] if ps[-1].data[2] else ('unk', '')
+
+        def is_error(x):
+            return x == ('param', 0, 2) or (x[0] == 'ref' and x[1] == (('local', 0, 2), ()))
+        rend = [x for x in symex.subvalues(arg) if is_call(x, r'(fmt::format|ToString>?::to_string|fmt::Arguments::new|rt::Argument::new_display|Display>?::fmt)$')]
+        from_error = any(mentions(x, is_error) for x in rend) or mentions(arg, is_error)
+        from_list = mentions_reasons(arg) or mentions(arg, lambda x: x[0] == 'index' or (x[0] == 'ref' and any(el[0] == 'idx' for el in x[1][1])))
+        chk.ob(rule, 'the panic message is the rendering of the error of this very call (not of an entry read back from the shared list)', from_error and not from_list, config=cfg, fn=ip, site='message',
+               what='panic message from error=%s, from the shared list=%s' % (from_error, from_list), found=show(arg)[:300], expected='Display of the `error` parameter')
+    chk.floor(rule, 'panicking paths of induce_panic', n, 1, config=cfg)
+
+
 def run(chk, tier):
     chk.explain('K1: census of explicit panic sites reachable from private::eval / Continuation::report / handle_error (only '
                 'induce_panic\'s final panic and the lock-poison unwrap are allowed). K2/K6: in induce_panic (lock wrapper and '
@@ -99,6 +158,7 @@ def run(chk, tier):
         eval_wiring(chk, F, 'R08.1', cfg)
 
         records_before_panic(chk, F, 'R08.2', cfg, nostd)
+        panic_message_is_the_error(chk, F, 'R08.2.msg', cfg)
 
         # ---- R08.3 append-only list
         acc = L.field_accesses(F, 'state::SharedState', 'panic_reasons')
@@ -118,32 +178,46 @@ def run(chk, tier):
                         nlock += 1
                         c = strip(e.data[2][1])
                         cf = F.fns.get(c[2]) if c[0] == 'agg' and c[1] == 'closure' else None
-                        if cf is None:
+                        item = _fn_item(c)
+                        if cf is None and item is None:
                             chk.ob('R08.3', 'closure run on the recorded-error list is a closure literal', False, config=cfg, fn=body,
                                    site='locked', what='opaque closure on panic_reasons', unrecognised=True, found=show(c))
                             continue
-                        for cbb, ct in cf.calls(include_cleanup=True):
-                            cn = symex.callee_name(ct)
+                        under_lock = [symex.callee_name(ct) for cbb, ct in cf.calls(include_cleanup=True)] if cf is not None else [item]
+                        for cn in under_lock:
                             if LIST_DENY.search(cn):
-                                chk.ob('R08.3', 'the recorded-error list is append-only', False, config=cfg, fn=cf, site='call:%s' % cn,
-                                       what='list shrinks/replaced: %s' % cn.rsplit('::', 1)[-1], found=cn, expected='push / clone / read-only access')
+                                # emptying the list is the same as reading it when nothing can read or write it afterwards
+                                last = re.search(r'(mem::take|::drain|mem::replace)$', cn) and final_read(chk, F, cfg, body)
+                                chk.ob('R08.3', 'the recorded-error list is append-only (it may be moved out by the very last read: teardown, sole handle)', bool(last), config=cfg, fn=cf or body, site='call:%s' % cn,
+                                       what='list shrinks/replaced: %s' % cn.rsplit('::', 1)[-1], found=cn, expected='push / clone / read-only access; take only as the final read in teardown')
                             else:
                                 okc = bool(re.search(r'(Vec::push$|Vec::extend\w*$|Clone>?::clone$|Vec::len$|Vec::is_empty$|::iter$|Deref>?::deref$|Vec::reserve$)', cn))
                                 chk.ob('R08.3', 'operation on the recorded-error list under the lock is known (%s)' % cn.rsplit('::', 1)[-1], okc,
-                                       config=cfg, fn=cf, site='call:%s' % cn, what='unknown list operation', unrecognised=True, found=cn)
+                                       config=cfg, fn=cf or body, site='call:%s' % cn, what='unknown list operation', unrecognised=True, found=cn)
                     elif not re.search(r'(Deref>?::deref$|MutexIsh::new$)', n):
                         chk.ob('R08.3', 'panic_reasons is only accessed through its lock', False, config=cfg, fn=body, site='call:%s' % n,
                                what='unlocked access to panic_reasons', unrecognised=True, found=n, expected='MutexIsh::locked(..)')
         chk.floor('R08.3', 'locked accesses to SharedState.panic_reasons', nlock, 2, config=cfg)
         cpr = F.fn('state::SharedState::clone_panic_reasons')
+        last_read = None
         for p in symex.Interp(F, inline=INLINE_LOCK).run(cpr):
             for e in p.calls():
                 n = e.data[1]
+                if n.endswith('FnOnce::call_once') and e.data[2] and _fn_item(e.data[2][0]):
+                    n = _fn_item(e.data[2][0])
                 if LIST_DENY.search(n):
-                    chk.ob('R08.3', 'reading the recorded errors does not consume them', False, config=cfg, fn=cpr, site='call:%s' % n,
+                    if last_read is None:
+                        last_read = final_read(chk, F, cfg, cpr)
+                    chk.ob('R08.3', 'reading the recorded errors does not consume them (except as the very last read: teardown, sole handle)', bool(last_read) and bool(re.search(r'mem::take$', n)), config=cfg, fn=cpr, site='call:%s' % n,
                            what='list consumed on read', found=n, expected='clone only')
             v = strip(p.outcome[1]) if p.outcome[0] == 'return' else ('unk', '')
             ok = is_call(v, r'Vec<T, A> as core::clone::Clone>::clone$') and mentions_reasons(v)
+            if not ok and last_read:
+                # the whole list moved out: mem::take(&mut *locked list), called directly or handed to `locked` as a function item
+                tk = v if is_call(v, r'core::mem::take$') else None
+                if tk is None and is_call(v, r'FnOnce::call_once$') and v[2] and _fn_item(v[2][0]) and re.search(r'core::mem::take$', _fn_item(v[2][0])):
+                    tk = v
+                ok = tk is not None and mentions_reasons(tk)
             chk.ob('R08.3', 'clone_panic_reasons returns a full clone of the list', ok, config=cfg, fn=cpr, site='return', what='not a full clone',
                    found=show(v), expected='Vec::clone(&*locked panic_reasons)')
         new = F.fn('state::SharedState::new')
